@@ -46,6 +46,9 @@ C16 line-protocol driver.
   perm <text> <seed>             \
   fauth <args>                   `forward_auth … { copy_headers <args> }` through the whole adapter (args = from[>to];…):
                                  the copy routes in order                   → `To<From,To<From,…`
+  imp <defs>                     import expansion under the cycle check through caddyfile.Parse: defs = def;def;…  def 0 =
+                                 `b=<items>` (site block body), def k = `s=<items>` (snippet s<k>) | `f=<items>` (file f<k>.conf),
+                                 items = `-` | m<N> (directive line) , i<K> (import of def K)   → `ok <markers>` | `cycle` | `missing`
   dadapt <text>                  a text with case-variant duplicate names, adapted 64 times (oracle only) → `oracle-only`
   nmeq <textA> <textB>           like eqv, for sites whose named matchers are used at top level, in nested blocks and
                                  inside handle_errors (plus "a named matcher means the same at every use")
@@ -57,6 +60,7 @@ C16 line-protocol driver.
   <paths> = `.` (no path matcher) | hex,hex,…  (`-` = empty string)
 -/
 import CaddyModel.C16.Model
+import CaddyModel.C16.Import
 import CaddyModel.C16.Stable
 import CaddyModel.C16.LexProps
 import CaddyModel.C16.History
@@ -294,7 +298,39 @@ def lowerA (b : Bytes) : Bytes := b.map fun c => if 65 ≤ c && c ≤ 90 then c 
 def siteKeyText (scheme port : Bytes) : Bytes :=
   (if scheme.isEmpty then [] else scheme ++ schemeSep) ++ str "a.test" ++ (if port.isEmpty then [] else 58 :: port)
 
+def parseImpItem (s : String) : Option Import.Item :=
+  match s.toList with
+  | 'm' :: ds => (canonNat (String.ofList ds)).bind fun n => if n ≤ 99 then some (.marker n) else none
+  | 'i' :: ds => (canonNat (String.ofList ds)).bind fun n => if 1 ≤ n && n ≤ 99 then some (.imp n) else none
+  | _ => none
+
+def parseImpDef (k : Nat) (s : String) : Option Import.Def :=
+  match s.toList with
+  | c :: '=' :: rest =>
+    if rest.isEmpty then none else
+    if (k == 0) != (c == 'b') || (k > 0 && c != 's' && c != 'f') then none else
+    let body := String.ofList rest
+    if body == "-" then some ⟨c == 's', []⟩ else
+    match (body.splitOn ",").mapM parseImpItem with
+    | some its => if its.length ≤ 6 then some ⟨c == 's', its⟩ else none
+    | none => none
+  | _ => none
+
+def answerImp (field : String) : String :=
+  let parts := field.splitOn ";"
+  if parts.length > 8 then "bad-op" else
+  match (parts.zipIdx).mapM (fun (p : String × Nat) => parseImpDef p.2 p.1) with
+  | none => "bad-op"
+  | some defs =>
+    match Import.run defs with
+    | .ok ms => "ok " ++ (if ms.isEmpty then "-" else ",".intercalate (ms.map toString))
+    | .cycle => "cycle"
+    | .missing => "missing"
+    | .noNode => "no-node"
+    | .fuel => "fuel"
+
 def handle : List String → String
+  | ["imp", defs] => answerImp defs
   | ["addr", t] =>
     match hexField t with
     | some b =>
